@@ -44,10 +44,12 @@ Fixpoint list_eqb {A} (eq : A -> A -> bool) (a b : list A) : bool :=
 Definition the_key : vkey := 1.
 Definition self : peer := 1000.
 
-(* public keys: value 1 = the target's key, 2 = another peer's key, 3 = no key;
+(* public keys: value 1 = the target's key, 2 = another peer's key, 3 = no key,
+   4 = the target's key in another encoding (other bytes, the same key: two
+   valid values between which PublicKeyValidator.Select does not distinguish);
    key 1 = /pk/<target>, key 2 = /pk/<other> *)
 Definition pk_H (v : val) : option peer :=
-  if N.eqb v 1 then Some 1 else if N.eqb v 2 then Some 2 else None.
+  if N.eqb v 1 then Some 1 else if N.eqb v 2 then Some 2 else if N.eqb v 4 then Some 1 else None.
 Definition pk_keyof (p : peer) : vkey := p.
 Definition pk_sel (kk : vkey) (a b : val) : option nat := Some 0%nat.   (* record.PublicKeyValidator.Select *)
 
@@ -159,15 +161,23 @@ Definition model_mm : mm :=
   end.
 
 (* ---- the property on the observation alone ----------------------------------------------- *)
+(* the rank the validator of the check assigns (the sequence number; every public
+   key has the same rank): byte-different values of equal rank exist *)
+Definition vrank (v : val) : N := if is_pk then 0 else c_rank the_key v.
+
+(* strictly improving: each streamed value differs from the previous one, Select
+   prefers it to the previous one, and it is ranked STRICTLY above every value
+   streamed before it -- a value that ties with an earlier one breaks this *)
 Fixpoint improving_b (l : list val) : bool :=
   match l with
   | v :: ((v' :: _) as rest) =>
-      negb (N.eqb v v') && match vsel the_key v v' with Some 1%nat => true | _ => false end && improving_b rest
+      negb (N.eqb v v') && match vsel the_key v v' with Some 1%nat => true | _ => false end
+      && forallb (fun w => N.ltb (vrank v) (vrank w)) rest && improving_b rest
   | _ => true
   end.
 
 Definition ge_b (f x : val) : bool :=
-  N.eqb f x || match vsel the_key f x with Some 0%nat => true | _ => false end.
+  (N.eqb f x || match vsel the_key f x with Some 0%nat => true | _ => false end) && N.leb (vrank x) (vrank f).
 
 (* the values consumed by one search before it ended (quorum), all valid *)
 Fixpoint consumed_b (st : pv) (l : list (peer * val)) : list val :=
